@@ -78,3 +78,202 @@ Example C10_table_examples :
   gate CANCUN 0x5d Legacy = C_DEFINED /\ gate OSAKA 0xec Eof = C_DEFINED /\
   child_is_static false 0xfa = true /\ child_is_static false 0xf4 = false /\ child_is_static true 0xf4 = true.
 Proof. vm_compute. intuition. Qed.
+
+(* ====================================================================================
+   C10 on the reference interpreter (composition).  Model/Step.v (one instruction, with the
+   is_static checks of SSTORE / TSTORE / LOGn / CREATE / CREATE2 / SELFDESTRUCT / CALL-with-value)
+   and Model/Evm.v (do_call = make_call_frame + the callee's run + call_return; exec = the
+   interpreter loop with nested calls and creates by recursion) over the journaled state of
+   Model/Host.v / Model/Frames.v.  This interpreter is tied to the Rust code by the C01
+   correspondence runs.  Proofs in Proofs/EvmStaticProofs.v.
+
+   The "state-visible projection" static_proj of the observation HostView.cview_of keeps, per
+   address: balance, nonce, code, created flag, selfdestructed flag, loaded-as-not-existing flag,
+   and per slot (original value, present value); plus transient storage.  It drops exactly:
+   the warm/cold mark of accounts and of slots, and the touched flag.  (Whether an account or
+   slot is already held in the journaled state or still only in the database is not part of
+   the observation to begin with.)  These exceptions are necessary: a static frame warms what
+   it reads, make_call_frame's Transfer(0) branch touches the call target also inside a static
+   call, and CALLCODE with value — which the static check of CALL does not cover, in revm as in
+   the model — performs a transfer from the frame's account to itself, which touches it.
+
+   Hypothesis HostRevert.Inv d s0 s cps (C06's invariant): s is a state inside a transaction
+   whose outer checkpoint was taken at s0 — balances are 256-bit words, accounts created in the
+   transaction have no storage in the database, the journal undoes to s0, cps are the open
+   checkpoints.  It holds at the start of a transaction (FramesProofs.Inv_tx_start) and is kept
+   by every operation (C06_wf_is_invariant, gseg_Inv). *)
+From RevmV Require Import Base.Word Model.Step Model.Evm Proofs.EvmHistoryProofs Proofs.EvmStaticProofs.
+From RevmV Require Model.Host Model.Frames Proofs.HostView Proofs.HostRevert Proofs.FramesProofs.
+
+(* Main theorem.  For every world, fuel, state, frame and interpreter state: if the frame is
+   static and its run — with all nested CALL / CALLCODE / DELEGATECALL / STATICCALL frames, at
+   any depth, completed, reverted or halted — ends, then the state-visible projection, the log
+   list, the code table and the log table are what they were.  Creates cannot occur. *)
+Theorem C10_interpreter_static_frame_preserves_state :
+  forall W f G F I G' r s0,
+    f_static F = true ->
+    HostRevert.Inv (gdb W G) s0 (gs G) (snd (g_sc G)) ->
+    exec f W G F I = XDone (G', r) ->
+    (static_proj (HostView.cview_of (gdb W G) (gs G')) = static_proj (HostView.cview_of (gdb W G) (gs G)) /\
+     Host.logs (gs G') = Host.logs (gs G)) /\
+    g_codes G' = g_codes G /\ g_logtab G' = g_logtab G /\ g_nlog G' = g_nlog G.
+Proof. exact exec_static_preserves. Qed.
+
+(* what equality of projections says, field by field *)
+Theorem C10_projection_meaning :
+  forall V V', static_proj V' = static_proj V ->
+    HostView.cv_ts V' = HostView.cv_ts V /\
+    forall a, let v := HostView.cv_acc V a in let v' := HostView.cv_acc V' a in
+      HostView.v_bal v' = HostView.v_bal v /\ HostView.v_nonce v' = HostView.v_nonce v /\
+      HostView.v_code v' = HostView.v_code v /\ HostView.v_created v' = HostView.v_created v /\
+      HostView.v_selfd v' = HostView.v_selfd v /\ HostView.v_lane v' = HostView.v_lane v /\
+      forall k, fst (HostView.v_slot v' k) = fst (HostView.v_slot v k).
+Proof. exact static_proj_fields. Qed.
+
+(* Flag inheritance on the interpreter: every call request issued by a static frame asks for a
+   static callee (do_call builds the callee's frame with f_static = cq_static), whatever the
+   call kind; it carries no value, or (CALLCODE) transfers from the frame's account to itself;
+   and a static frame never issues a create request. *)
+Theorem C10_interpreter_child_of_static_is_static :
+  forall W G F I G1,
+    f_static F = true ->
+    (forall c I1, step W G F I = (G1, SCall c I1) ->
+       cq_static c = true /\
+       (cq_transfers c = true -> 0 <= cq_value c /\ (cq_value c = 0 \/ cq_caller c = cq_target c))) /\
+    (forall c I1, step W G F I <> (G1, SCreate c I1)).
+Proof.
+  intros W G F I G1 ST. split.
+  - intros c I1 E. exact (step_static_req W G F I G1 c I1 ST E).
+  - intros c I1 E. exact (step_static_no_create W G F I G1 c I1 ST E).
+Qed.
+
+(* "Every attempt ... fails that frame", on the interpreter: in a static frame SSTORE, TSTORE,
+   LOG0-4, CREATE, CREATE2 and SELFDESTRUCT (whether or not the hardfork has them) and CALL with
+   a non-zero value operand end the frame with a result that is neither ok nor revert — all gas
+   consumed, call_return reverts the frame's checkpoint — and the global state is not touched
+   by the instruction. *)
+Theorem C10_interpreter_mutation_fails_static_frame :
+  forall W G F I, f_static F = true ->
+    (let op := opcode_at F (i_pc I) in
+     op = 0x55 \/ op = 0x5d \/ 0xa0 <= op <= 0xa4 \/ op = 0xf0 \/ op = 0xf5 \/ op = 0xff) ->
+    exists r I', step W G F I = (G, SEnd r [] I') /\ is_ok r = false /\ is_revert r = false.
+Proof. exact step_static_mutation_fails. Qed.
+
+Theorem C10_interpreter_value_call_fails_static_frame :
+  forall W G F I lg to v rest, f_static F = true ->
+    opcode_at F (i_pc I) = 0xf1 -> i_stk I = lg :: to :: v :: rest -> 0 < v ->
+    exists r I', step W G F I = (G, SEnd r [] I') /\ is_ok r = false /\ is_revert r = false.
+Proof. exact step_static_value_call_fails. Qed.
+
+(* on static frames the interpreter coincides with the create-free interpreter of C01 *)
+Theorem C10_interpreter_static_frame_is_create_free :
+  forall W f G F I x, f_static F = true -> exec f W G F I = XDone x -> exec_nc f W G F I = XDone x.
+Proof. exact static_exec_nc. Qed.
+
+(* Corollary: STATICCALL seen from its caller, which may be any frame (static or not).  From the
+   state before the STATICCALL instruction to the state in which the caller continues — the
+   instruction's own load of the callee, make_call_frame, the callee's whole run, call_return
+   (commit or revert) — nothing state-visible changes; only warm / touched marks (and the
+   caller's gas, stack, memory, which are not part of the journaled state). *)
+Theorem C10_interpreter_staticcall_preserves_state :
+  forall W f G F I G1 c I1 G2 r s0,
+    HostRevert.Inv (gdb W G) s0 (gs G) (snd (g_sc G)) ->
+    step W G F I = (G1, SCall c I1) -> cq_scheme c = SchStaticCall ->
+    do_call W (exec f W) G1 c = XDone (G2, r) ->
+    (static_proj (HostView.cview_of (gdb W G) (gs G2)) = static_proj (HostView.cview_of (gdb W G) (gs G)) /\
+     Host.logs (gs G2) = Host.logs (gs G)) /\
+    g_codes G2 = g_codes G /\ g_logtab G2 = g_logtab G /\ g_nlog G2 = g_nlog G.
+Proof. exact staticcall_preserves. Qed.
+
+(* the same for any call request whose callee runs static and that moves no value between
+   different accounts (what STATICCALL builds, and what every call kind builds inside a static
+   frame) *)
+Theorem C10_interpreter_static_call_request_preserves_state :
+  forall W f G c G' r s0,
+    (cq_static c = true /\
+     (cq_transfers c = true -> 0 <= cq_value c /\ (cq_value c = 0 \/ cq_caller c = cq_target c))) ->
+    HostRevert.Inv (gdb W G) s0 (gs G) (snd (g_sc G)) ->
+    do_call W (exec f W) G c = XDone (G', r) ->
+    (static_proj (HostView.cview_of (gdb W G) (gs G')) = static_proj (HostView.cview_of (gdb W G) (gs G)) /\
+     Host.logs (gs G') = Host.logs (gs G)) /\
+    g_codes G' = g_codes G /\ g_logtab G' = g_logtab G /\ g_nlog G' = g_nlog G.
+Proof. exact static_call_preserves. Qed.
+
+(* non-vacuity.  CANCUN world; 0x1000 reads its storage slot 0 (SLOAD), the balance of 0x3000
+   (BALANCE), calls 0x2000 (CALL, value 0) and returns what 0x2000 returned; 0x2000 calls 0x3000
+   and returns 2 + the success flag of that call; 0x3000 attempts SSTORE.  Run below a STATICCALL
+   the grandchild's SSTORE fails (flag 0, output 2) and the run completes; the same tree run
+   below a plain CALL stores (output 3). *)
+Definition exs_A : list Z :=
+  [0x60;0;0x54;0x50;  0x61;0x30;0;0x31;0x50;
+   0x60;32;0x60;0;0x60;0;0x60;0;0x60;0;0x61;0x20;0;0x5a;0xf1;0x50;  0x60;32;0x60;0;0xf3].
+Definition exs_B : list Z :=
+  [0x60;0;0x60;0;0x60;0;0x60;0;0x60;0;0x61;0x30;0;0x5a;0xf1;  0x60;2;0x01;0x60;0;0x52;  0x60;32;0x60;0;0xf3].
+Definition exs_C : list Z := [0x60;1;0x60;0;0x55;0x00].
+Definition exs_world : Step.world :=
+  Step.mkW 17 (E.mkEnv (E.mainnet_cfg 1) (E.mkBlock (2^256-1) 0 true (Some 1))
+                  (E.mkTx 200000 1 false 0 [] (Some 7) None [] None [] None None))
+      0xCA11E4 (Some 0x1000) 0 [] [] [] [] 0xC01BBA5E 100 1700000000 0 0x1234
+      [(0x1000, (5, 1, 77)); (0x2000, (0, 1, 78)); (0x3000, (0, 1, 79)); (0xCA11E4, (10^30, 7, 0))]
+      [(0x1000, 0, 9)] [(77, exs_A); (78, exs_B); (79, exs_C)] [].
+Definition exs_call (static : bool) : callreq :=
+  mkCall (if static then SchStaticCall else SchCall) 100000 0x1000 0xCA11E4 0x1000 0 true static [] 0 0.
+(* the state in which the static callee starts: after make_call_frame of the STATICCALL *)
+Definition exs_G1 : gstate :=
+  let G := gstate_new exs_world in
+  match Frames.make_call_frame (gdb exs_world G) (g_sc G) (call_inputs_of exs_world (exs_call true)) with
+  | Some (sc1, _) => set_sc G sc1
+  | None => G
+  end.
+Definition exs_F : fctx := mk_fctx exs_A [] 0x1000 0xCA11E4 0 true.
+
+Lemma exs_tx_start : FramesProofs.tx_start (gdb exs_world (gstate_new exs_world)) (gs (gstate_new exs_world)).
+Proof.
+  split; [|split; reflexivity]. split; [split|split].
+  - intros a acc H. discriminate.
+  - intros a b n c. cbn [gdb the_db Host.db_basic]. unfold exs_world. cbn [w_accounts acc_lookup].
+    destruct (0x1000 =? a); [intros [= <- _ _]; unfold_pows; lia|].
+    destruct (0x2000 =? a); [intros [= <- _ _]; unfold_pows; lia|].
+    destruct (0x3000 =? a); [intros [= <- _ _]; unfold_pows; lia|].
+    destruct (0xCA11E4 =? a); [intros [= <- _ _]; unfold_pows; lia|discriminate].
+  - intros a acc H. discriminate.
+  - cbn. congruence.
+Qed.
+
+Lemma exs_sreq : sreq (exs_call true).
+Proof. split; [reflexivity|]. intros _. split; [cbn; lia|left; reflexivity]. Qed.
+
+Example C10_interpreter_static_frame_example :
+  f_static exs_F = true /\
+  (exists s0, HostRevert.Inv (gdb exs_world exs_G1) s0 (gs exs_G1) (snd (g_sc exs_G1))) /\
+  (match exec 100 exs_world exs_G1 exs_F (istate_new 100000) with
+   | XDone (G', r) =>
+       ir_res r = R_Return /\ ir_out r = to_be 32 2 /\
+       (* marks did change: 0x3000 was absent and is now held warm *)
+       Host.st (gs exs_G1) 0x3000 = None /\
+       (match Host.st (gs G') 0x3000 with Some a => Host.a_cold a = false | None => False end)
+   | _ => False end).
+Proof.
+  split; [reflexivity|]. split.
+  - exists (FramesProofs.virtual0 (gs (gstate_new exs_world))). unfold exs_G1. cbv zeta.
+    destruct (Frames.make_call_frame _ _ _) as [[sc1 fr]|] eqn:EM.
+    + exact (Inv_after_call_frame _ _ _ _ _ exs_tx_start (sci_value_ok _ (sreq_sci exs_world _ exs_sreq)) EM).
+    + apply FramesProofs.Inv_tx_start. exact exs_tx_start.
+  - vm_compute. repeat split; reflexivity.
+Qed.
+
+Example C10_interpreter_staticcall_example :
+  let G := gstate_new exs_world in
+  FramesProofs.tx_start (gdb exs_world G) (gs G) /\
+  (match do_call exs_world (exec 100 exs_world) G (exs_call true) with
+   | XDone (_, r) => ir_res r = R_Return /\ ir_out r = to_be 32 2 | _ => False end) /\
+  (* the same tree below a plain CALL: the grandchild's SSTORE succeeds *)
+  (match do_call exs_world (exec 100 exs_world) G (exs_call false) with
+   | XDone (G', r) => ir_res r = R_Return /\ ir_out r = to_be 32 3 /\
+       (match Host.st (gs G') 0x3000 with
+        | Some a => (match Host.a_storage a 0 with Some sl => Host.s_pres sl = 1 | None => False end)
+        | None => False end)
+   | _ => False end).
+Proof.
+  split; [exact exs_tx_start|]. split; vm_compute; repeat split; reflexivity.
+Qed.
